@@ -433,6 +433,7 @@ func (g *Generator) generateUnwrapMapMarshal(
 		// For scalar types, marshal the array directly with json
 		gf.P("// Marshal the unwrap field directly (the array of scalars)")
 		gf.P("arrayData, err := json.Marshal(wrapper.Get", unwrapFieldName, "())")
+		generateEmptyListAsArray(gf, "wrapper.Get"+unwrapFieldName+"()", "arrayData")
 	}
 
 	gf.P("if err != nil {")
@@ -448,6 +449,14 @@ func (g *Generator) generateUnwrapMapMarshal(
 	gf.P(`out["`, jsonName, `"] = data`)
 	gf.P("}")
 	gf.P()
+}
+
+// generateEmptyListAsArray emits the guard that keeps an empty scalar list a JSON array: encoding/json writes a nil
+// slice as null, which is neither the documented form of a list nor valid against the published array schema.
+func generateEmptyListAsArray(gf *protogen.GeneratedFile, listExpr, dataVar string) {
+	gf.P("if err == nil && len(", listExpr, ") == 0 {")
+	gf.P(dataVar, " = []byte(\"[]\")")
+	gf.P("}")
 }
 
 func (g *Generator) generateRegularMapMarshal(gf *protogen.GeneratedFile, field *protogen.Field, jsonName string) {
@@ -752,7 +761,10 @@ func (g *Generator) generateRootMapUnwrapMarshalJSON(gf *protogen.GeneratedFile,
 		// Root map with message values (no value unwrap)
 		g.generateRootMapMessageValueMarshal(gf, rootUnwrap, fieldName)
 	default:
-		// Root map with scalar values
+		// Root map with scalar values (an empty map is {}, like the message-valued cases; a nil map would be null)
+		gf.P("if len(x.", fieldName, ") == 0 {")
+		gf.P("return []byte(\"{}\"), nil")
+		gf.P("}")
 		gf.P("return json.Marshal(x.", fieldName, ")")
 	}
 
@@ -786,6 +798,7 @@ func (g *Generator) generateRootMapWithValueUnwrapMarshal(
 		gf.P("arrayData, err := json.Marshal(items)")
 	} else {
 		gf.P("arrayData, err := json.Marshal(wrapper.Get", unwrapFieldName, "())")
+		generateEmptyListAsArray(gf, "wrapper.Get"+unwrapFieldName+"()", "arrayData")
 	}
 
 	gf.P("if err != nil {")
@@ -939,7 +952,10 @@ func (g *Generator) generateRootRepeatedUnwrapMarshalJSON(gf *protogen.Generated
 		// Suppress unused variable warning
 		_ = elementTypeIdent
 	} else {
-		// Scalar type - marshal directly
+		// Scalar type - marshal directly (an empty list is [], like the message case above; a nil slice would be null)
+		gf.P("if len(x.", fieldName, ") == 0 {")
+		gf.P("return []byte(\"[]\"), nil")
+		gf.P("}")
 		gf.P("return json.Marshal(x.", fieldName, ")")
 	}
 
